@@ -12,6 +12,7 @@ package main
 //      base   {args, env}      optional reference invocation (e.g. -t 1, no jitter) run once first
 //      outfile name            compare this output file instead of stdout
 //      strace {file, k}        run under strace and make the k-th write(2) to <file> fail with ENOSPC
+//      stdout_file name        connect standard output to this file (strace can then fault it)
 //      race   bool             use the -race build
 //
 // obs: runs [{exit, timeout, same_as_first, same_as_base}], ndistinct, out (first run, truncated),
@@ -136,16 +137,24 @@ func runCli(vec map[string]interface{}) map[string]interface{} {
 			os.Remove(filepath.Join(dir, outfile))
 		}
 		var res binResult
+		stdoutPath := ""
+		if sf := gStr(vec, "stdout_file"); sf != "" {
+			stdoutPath = filepath.Join(dir, sf)
+		}
 		if strace != nil {
 			target := filepath.Join(dir, gStr(strace, "file"))
 			sargs := []string{"-f", "-o", "/dev/null", "-e", "trace=write", "-e",
 				"inject=write:error=ENOSPC:when=" + itoa(gInt(strace, "k")), "-P", target, bin}
 			sargs = append(sargs, a...)
-			res = runBinary("strace", stdin, envList(env), deadline, sargs...)
+			res = runBinaryTo(stdoutPath, "strace", stdin, envList(env), deadline, sargs...)
 		} else {
-			res = runBinary(bin, stdin, envList(env), deadline, a...)
+			res = runBinaryTo(stdoutPath, bin, stdin, envList(env), deadline, a...)
 		}
 		out := res.Stdout
+		if stdoutPath != "" {
+			b, _ := os.ReadFile(stdoutPath)
+			out = string(b)
+		}
 		if outfile != "" {
 			b, _ := os.ReadFile(filepath.Join(dir, outfile))
 			out = string(b)
